@@ -20,6 +20,7 @@ import io
 import itertools
 import json
 import os
+import shutil
 from pathlib import Path
 
 from . import core
@@ -666,6 +667,139 @@ def stream_unicode_linebreaks(ctx, impl, drv, judge):
             }, per_sig=2)
 
 
+FILE_CODE = ["x = 1", "y = x + 1", "print(x, y)", "for i in range(3):", "    y = y + i", "z = [1, 2]", "if x:", "    z = 3",
+             "def f(a):", "    return a", "t = f(x) + f(y)"]
+
+
+def gen_hinted_file(rng):
+    """A program FILE as a user writes it: a leading block (shebang, coding line, comments), ordinary comments and
+    blank lines, hints in any tolerated spelling at the end of code lines and alone on a line — on the first line, in
+    the leading comment block, between statements, at the end. Returns the lines as (kind, layout line) where kind is
+    'noise' (comment / blank line: cleaned away under `full`, an ordinary line under `none`) or 'kept'."""
+    def spelled(line, always=False):
+        if always or rng.random() < 0.6:
+            line["marker"] = {"sp1": rng.choice([0, 1, 2]), "caps": rng.choice([1, 1023, 1 << rng.randrange(10), rng.randrange(1024)]),
+                              "sp2": rng.choice([0, 0, 1, 2]), "after": rng.choice([0, 1, 2, 3])}
+        return line
+
+    def iso(L):
+        return ("kept", spelled({"isolated": L, "indent": 0}))
+
+    def noise(text):
+        return ("noise", {"code": text, "pad": 0, "hints": []})
+
+    out = []
+    labels = rng.sample(["foo", "meta/topic/fun", "bar:baz", "l_1", "a/b", "été", "x.y"], 4)
+    # leading comment block
+    where_first = rng.random()
+    if where_first < 0.3:
+        out.append(iso(labels[0]))  # on the very first line
+    head = []
+    if rng.random() < 0.6:
+        head.append(noise("#!/usr/bin/env python"))
+    if rng.random() < 0.5:
+        head.append(noise("# -*- coding: utf-8 -*-"))
+    for _ in range(rng.randint(0, 2)):
+        head.append(noise(rng.choice(["# some comment", "# Author: somebody", "#", "# TODO: nothing"])))
+    if 0.3 <= where_first < 0.75 and head:
+        head.insert(rng.randint(1, len(head)), iso(labels[0]))  # inside the leading comment block
+    out += head
+    if rng.random() < 0.3:
+        out.append(noise(""))
+    # the code, with trailing hints, ordinary comments, blank lines, isolated hints in between
+    k = rng.randrange(0, len(FILE_CODE) - 3)
+    code = FILE_CODE[k:k + rng.randint(2, 5)]
+    while code and code[0][:1] == " ":
+        code = code[1:]
+    if not code:
+        code = ["x = 1"]
+    for j, c in enumerate(code):
+        hints = []
+        if rng.random() < 0.45:
+            L = rng.choice(labels[1:])
+            hints.append({"mark": rng.choice(["one+", "one+", "one-"]), "label": L, "plus": rng.random() < 0.4,
+                          "gap": rng.choice([0, 0, 1])})
+        line = {"code": c, "pad": rng.choice([0, 1, 2]), "hints": hints}
+        out.append(("kept", spelled(line) if hints else line))
+        nxt_indented = j + 1 < len(code) and code[j + 1][:1] == " "
+        if rng.random() < 0.2 and not nxt_indented:
+            out.append(noise(rng.choice(["", "# a comment"])))
+        if rng.random() < 0.15 and not nxt_indented:
+            out.append(iso(labels[1]))
+    if rng.random() < 0.4:
+        out.append(iso(rng.choice(labels[:2])))  # alone on the last line
+    return out
+
+
+def stream_files(ctx, impl, drv, judge):
+    """What the user writes in a FILE, through `list_programs(directory, cleanup_strategy=...)` (both strategies) and
+    ProgramParser: the hints are never noise. Expected (C12_roundtrip via `c12.spec_decorate`): under `full` the program
+    without its comments and blank lines, under `none` the file as it is — with exactly the hints it says."""
+    from paroxython.list_programs import list_programs
+
+    n = 120 if ctx.tier == "quick" else 1500
+    root = ctx.scratch_dir()
+    parser = impl.pp.ProgramParser()
+    for k in range(n):
+        rng = ctx.rng
+        files = {}
+        for j in range(rng.randint(1, 3)):
+            files[f"prog_{j}.py"] = gen_hinted_file(rng)
+        d = root / f"files-{k}"
+        d.mkdir()
+        texts = {}
+        for fn, lines in files.items():
+            spec_all = drv.call("c12.spec_decorate", lines=[l for _, l in lines])
+            texts[fn] = spec_all["src"] + rng.choice(["\n", "\n", ""])
+            (d / fn).write_text(texts[fn], encoding="utf-8")
+        for strategy in ("full", "none"):
+            try:
+                programs = quiet(list_programs, d, cleanup_strategy=strategy)
+                got_all = {str(p.path): p for p in programs}
+            except Exception as e:  # noqa
+                got_all = {"exc": exc_name(e)}
+            for fn, lines in files.items():
+                layout = [l for kind, l in lines if strategy == "none" or kind == "kept"]
+                spec = drv.call("c12.spec_decorate", lines=layout)
+                exp = expected_of(spec) if spec["hygienic"] else None
+                if exp is None:
+                    ctx.dist("files:skipped-not-hygienic")
+                    continue
+                if "exc" in got_all:
+                    got = got_all
+                else:
+                    p = got_all[fn]
+                    got = {"source": str(p.source),
+                           "addition": {a: [[x.start, x.end] for x in v] for a, v in p.addition.items()},
+                           "deletion": {a: [[x.start, x.end] for x in v] for a, v in p.deletion.items()}}
+                ctx.count(f"files:{strategy}", (strategy, texts[fn]), nontrivial=MARK.lower() in texts[fn].lower())
+                if got != exp:
+                    add_violation(ctx, {
+                        "what": "the hints written in a program file are not scheduled as they say once the file went through "
+                                "list_programs (cleaning + get_program)",
+                        "signature": None,
+                        "replay": {"kind": "file", "file": texts[fn], "cleanup_strategy": strategy, "impl": got, "spec": exp,
+                                   "how": "list_programs(directory, cleanup_strategy=...) -> Program.source/.addition/.deletion"},
+                    }, per_sig=2)
+                    continue
+                if strategy == "full" and k % 3 == 0 and "exc" not in got_all:  # the additions reach the labels
+                    try:
+                        labels = {l.name: [[x.start, x.end] for x in l.spans] for l in quiet(parser, got_all[fn])}
+                    except Exception:  # noqa
+                        parser = impl.pp.ProgramParser()
+                        continue
+                    if not (len(labels) == 1 and next(iter(labels)).startswith("ast_construction")):
+                        missing = [[a, sp] for a, v in exp["addition"].items() for sp in v if sp not in labels.get(a, [])]
+                        if missing:
+                            add_violation(ctx, {
+                                "what": "a label added by a hint of the file is absent from the labels of the program",
+                                "signature": None,
+                                "replay": {"kind": "file", "file": texts[fn], "cleanup_strategy": strategy, "impl": missing,
+                                           "spec": exp, "how": "ProgramParser()(program) for program in list_programs(...)"},
+                            })
+        shutil.rmtree(d, ignore_errors=True)
+
+
 def stream_marker_spelling(ctx, impl, drv, judge):
     """The manual tolerates `#  Paroxython :` (repaired finding 16)."""
     cases = ["x = 1 # Paroxython : foo", "x = 1 #paroxython: foo", "x = 1 #  PAROXYTHON  :   foo", "x = 1 #paroxython:foo"]
@@ -1082,6 +1216,7 @@ def run(ctx):
                         ("blank-ends", lambda: stream_blank_ends(ctx, impl, drv, judge)),
                         ("marker", lambda: stream_marker_spelling(ctx, impl, drv, judge)),
                         ("linebreak-like", lambda: stream_unicode_linebreaks(ctx, impl, drv, judge)),
+                        ("files", lambda: stream_files(ctx, impl, drv, judge)),
                         ("end-to-end", lambda: stream_end_to_end(ctx, impl, drv, judge, real))]:
             t = time.time()
             f()
